@@ -8,4 +8,5 @@ mkdir -p work evidence replay
 (cd harness && cargo build --offline 2>&1 | tail -1)
 cargo build --offline --manifest-path /repo/Cargo.toml --target-dir target-cli 2>&1 | tail -1
 python3 tools/gen_tables.py harness/target/debug/harness
+python3 tools/mk_root.py
 (cd lean && lake build Resynth resynth_model 2>&1 | tail -2)
